@@ -23,6 +23,15 @@ def permuted_sort_keys(seed):
     return sk
 
 
+def plain_name_key(key):
+    """A cheap replacement order (plain name): the solver re-sorts its whole queue
+    with a character-by-character natural key for every scheduled line, which is
+    quadratic when a thousand lines are requested at once."""
+    if isinstance(key, F.Field) or isinstance(key, I.Input):
+        return key.name()
+    return key
+
+
 def config_from(file_map=None, text=None):
     cp = configparser.ConfigParser()
     if text is not None:
@@ -43,7 +52,7 @@ def final_inputs(cp):
     return out
 
 
-def run_solver(classes, cp, request, field_names=(), answer=None, schedule_seed=None, tracer=None, use_prompt=True):
+def run_solver(classes, cp, request, field_names=(), answer=None, schedule_seed=None, tracer=None, use_prompt=True, sort_key=None):
     """answer(input_obj, needed_by) -> text or None (refuse)."""
     store = I.InputStore(cp)
     out = Outcome()
@@ -65,6 +74,8 @@ def run_solver(classes, cp, request, field_names=(), answer=None, schedule_seed=
     saved = S.sort_keys
     if schedule_seed is not None:
         S.sort_keys = permuted_sort_keys(schedule_seed)
+    elif sort_key is not None:
+        S.sort_keys = sort_key
     try:
         try:
             out.ret = s.solve(list(request), field_names=list(field_names))
